@@ -25,8 +25,18 @@ func (f Fact) String() string {
 	return f.Kind + "(" + f.Path + "," + f.Arg + ")"
 }
 
+// PredicateHook, when set, returns the facts implied by a call of a module
+// helper predicate evaluating to branch (e.g. isIonYear(y) == true implies
+// y >= 1 and y <= 9999), phrased over the argument paths of the call.
+var PredicateHook func(c *ssa.Call, branch bool) []Fact
+
 // CondFacts lists the facts that hold when cond evaluates to branch.
 func CondFacts(cond ssa.Value, branch bool) []Fact {
+	if c, ok := cond.(*ssa.Call); ok && PredicateHook != nil {
+		if fs := PredicateHook(c, branch); len(fs) > 0 {
+			return append(fs, boolFact(cond, branch)...)
+		}
+	}
 	switch c := cond.(type) {
 	case *ssa.UnOp:
 		if c.Op == token.NOT {
